@@ -127,7 +127,7 @@ Section P.
     cbn [jscan]. unfold is_count_line in Hh0. rewrite Hh0.
     rewrite (jscan_events tok_float tok_int pdg_valid pdg_charge usqrt defstr evs 0 [jd_trailer d] Hev).
     cbn [jscan]. unfold is_count_line in Htc. rewrite Htc. cbn [jscan bind]. rewrite app_nil_r.
-    cbn [jnum_skip jnum_read bind]. rewrite !Nat2Z.id.
+    cbn [jnum_skip jnum_read bind sel_first sel_counts]. rewrite !Nat2Z.id.
     rewrite (jsum_ok a evs 0 0) by lia. cbn [skipn bind]. fold A.
     replace (Z.to_nat (Z.of_nat b - Z.of_nat a + 1)) with (b - a + 1)%nat by lia.
     rewrite (jsum_ok (b - a + 1) evs 0 a) by lia. fold B. cbn [bind].
@@ -171,7 +171,7 @@ Section P.
     pose proof (jfold_all tok_float tok_int pdg_valid pdg_charge usqrt B' [] (PARSE (je_rows e0))) as Hf.
     cbn [app] in Hf. rewrite Hf. rewrite Hsig.
     unfold jsliced, slice. fold evs. cbn [fst snd].
-    replace (Z.of_nat b - Z.of_nat a + 1)%Z with (Z.of_nat (b - a + 1)) by lia.
-    fold B. rewrite EB. cbn [map]. reflexivity.
+    fold B. rewrite EB. cbn [map List.length]. rewrite map_length.
+    replace (S (List.length B')) with (b - a + 1)%nat by (cbn [List.length] in HlenB; lia). reflexivity.
   Qed.
 End P.
